@@ -835,3 +835,76 @@ Proof.
     + intros ->. reflexivity.
     + intros E. apply ok_pair_inj in E as [E _]. apply mk_inj in E. tauto.
 Qed.
+
+(* ================= the calendar theorems in the form stated in Properties/C15.v ================= *)
+
+Theorem civil_days_roundtrip :
+  (forall c, valid c -> civil_from_days (days_of c) = c) /\
+  (forall z, days_of (mk 0 1 1) <= z <= days_of (mk 9999 12 31) ->
+             valid (civil_from_days z) /\ days_of (civil_from_days z) = z).
+Proof.
+  split.
+  - intros c Hv. apply cfd_days. apply valid_days in Hv. tauto.
+  - intros z Hz. apply cfd_valid_days. exact Hz.
+Qed.
+
+Theorem days_next_day c : valid c -> c <> mk 9999 12 31 ->
+  valid (next_day c) /\ days_of (next_day c) = days_of c + 1.
+Proof.
+  intros Hv Hn. destruct (plus_days_next c Hv Hn) as [_ V]. split; [exact V|].
+  apply days_next. apply valid_days in Hv. tauto.
+Qed.
+
+Theorem date_order a b : valid a -> valid b -> (cdate_geb a b = true <-> days_of b <= days_of a).
+Proof. intros Ha Hb. apply valid_days in Ha as [Wa _]. apply valid_days in Hb as [Wb _]. apply cdate_geb_days; assumption. Qed.
+
+Theorem plus_days_full_spec c n : valid c ->
+  (forall r, plus_days c n = Ok r <-> (valid r /\ days_of r = days_of c + n)) /\
+  (plus_days c n = Crash CUnrepresentableDate <-> ~ exists r, valid r /\ days_of r = days_of c + n) /\
+  (forall e, plus_days c n <> Err e).
+Proof.
+  intros Hv. pose proof (valid_days _ Hv) as [Hw Hr]. rewrite plus_days_spec by exact Hw.
+  destruct ((D0 <=? days_of c + n) && (days_of c + n <=? D1)) eqn:E.
+  - destruct (cfd_valid_days (days_of c + n) ltac:(lia)) as [V Ed].
+    split; [|split].
+    + intros r. split.
+      * intros [= <-]. split; assumption.
+      * intros [Vr Er]. f_equal. apply valid_days in Vr as [Wr _]. rewrite <- Er. apply cfd_days. exact Wr.
+    + split; [discriminate|]. intros H. exfalso. apply H. eexists; split; eassumption.
+    + discriminate.
+  - split; [|split].
+    + intros r. split; [discriminate|]. intros [Vr Er]. apply valid_days in Vr as [_ Rr]. lia.
+    + split; [|reflexivity]. intros _ (r & Vr & Er). apply valid_days in Vr as [_ Rr]. lia.
+    + discriminate.
+Qed.
+
+Theorem weekday_spec :
+  (forall c, 1 <= weekday c <= 7) /\
+  weekday (mk 1970 1 1) = 4 /\
+  (forall c, valid c -> c <> mk 9999 12 31 -> weekday (next_day c) = weekday c mod 7 + 1).
+Proof.
+  split; [exact weekday_range|]. split; [exact weekday_epoch|].
+  intros c Hv _. apply weekday_next. apply valid_days in Hv. tauto.
+Qed.
+
+Theorem iso_week_spec :
+  (forall a b, valid a -> valid b -> (iso_week a = iso_week b <-> monday_of a = monday_of b)) /\
+  (forall c, valid c -> monday_of c <= days_of c <= monday_of c + 6 /\ weekday c = days_of c - monday_of c + 1) /\
+  (forall y, iso_week (mk y 1 4) = (y, 1)) /\
+  (forall a b, valid a -> valid b -> days_of b = days_of a + 7 ->
+     let y := fst (iso_week a) in let w := snd (iso_week a) in
+     1 <= w <= weeks_in_year y /\ 52 <= weeks_in_year y <= 53 /\
+     ((w < weeks_in_year y /\ iso_week b = (y, w + 1)) \/ (w = weeks_in_year y /\ iso_week b = (y + 1, 1)))) /\
+  (forall c, valid c -> c_year c - 1 <= fst (iso_week c) <= c_year c + 1).
+Proof.
+  split; [|split; [|split; [|split]]].
+  - intros a b Ha Hb. apply valid_days in Ha as [Wa _]. apply valid_days in Hb as [Wb _]. apply iso_week_iff; assumption.
+  - intros c _. pose proof (monday_of_spec c) as [B _]. split; [exact B|]. unfold monday_of. lia.
+  - exact iso_week_jan4.
+  - intros a b Ha Hb H. cbv zeta. apply valid_days in Ha as [Wa _]. apply valid_days in Hb as [Wb _].
+    split; [apply iso_week_range; exact Wa|]. split; [apply week1_step|]. apply iso_week_succ; assumption.
+  - intros c Hv. apply iso_year_near. apply valid_days in Hv. tauto.
+Qed.
+
+Theorem quarter_valid_spec c : valid c -> 1 <= quarter c <= 4 /\ 3 * quarter c - 2 <= c_month c <= 3 * quarter c.
+Proof. intros Hv. apply quarter_spec. apply valid_fields in Hv. tauto. Qed.
